@@ -29,7 +29,11 @@ contract("usim._basics.streams.Queue.__init__",
          params={"self": REF("Queue")},
          requires=["forall(Notification, lambda n: n.lock is not self and n.queue is not self)"],
          ensures=["len(self._buffer) == 0", "not self._closed", "self._read_mutex._owner is None",
-                  "len(self._notification._waiting) == 0"],
+                  "len(self._notification._waiting) == 0",
+                  # nothing that existed before is touched
+                  'only_new_changed("Notification._waiting")', 'only_new_changed("Notification.lock")',
+                  'only_new_changed("Notification.queue")', 'only_new_changed("Lock._notification")',
+                  'only_new_changed("Lock._owner")', 'only_new_changed("Lock._depth")', 'only_new_changed("Lock.grant")'],
          ghost_exit=["self._notification.queue = self"],
          modifies=["Queue._buffer@self", "Queue._notification@self", "Queue._read_mutex@self", "Queue._closed@self",
                    "Notification._waiting", "Notification.lock", "Notification.queue", "Lock._notification", "Lock._owner", "Lock._depth", "Lock.grant"],
@@ -49,7 +53,7 @@ contract("usim._basics.streams.Queue.put",
          guarantee=['unchanged_except("Queue._buffer", self)',
                     "implies(old(self._read_mutex._owner) is not me or old(self._read_mutex._depth) < 1, "
                     "        len(self._buffer) >= len(old(self._buffer)) and self._buffer[:len(old(self._buffer))] == old(self._buffer))"],
-         props=["C10", "C20"])
+         props=["C10", "C20", "C16"])
 
 contract("usim._basics.streams.Queue.close",
          params={"self": REF("Queue")},
@@ -76,14 +80,14 @@ contract("usim._basics.streams.Queue._await_message",
                   "self._read_mutex._owner is not me"],
          raises={"StreamClosed": dict(ensures=["self._closed", "len(self._buffer) == 0",
                                                "self._buffer == at_last_suspension(self._buffer)",
-                                               "self._read_mutex._owner is not me"])},
+                                               "self._read_mutex._owner is not me", "loop.activity is me"])},
          # cancelled / interrupted / closed at any suspension: no item is lost or duplicated, the mutex is given up
          on_signal=["self._buffer == at_last_suspension(self._buffer)", "self._read_mutex._owner is not me"],
          on_exit=[DEAD_NEW],
          guarantee=['unchanged_except("Queue._buffer", self)',
                     "implies(old(self._read_mutex._owner) is not me or old(self._read_mutex._depth) < 1, "
                     "        len(self._buffer) >= len(old(self._buffer)) and self._buffer[:len(old(self._buffer))] == old(self._buffer))"],
-         props=["C10", "C20"])
+         props=["C10", "C20", "C16"])
 
 rely("Queue", [], "self._read_mutex._owner is me and self._read_mutex._depth >= 1",
      ensures="len(self._buffer) >= len(old(self._buffer)) and self._buffer[:len(old(self._buffer))] == old(self._buffer)",
@@ -176,13 +180,15 @@ contract("usim._basics.streams.Channel.__await__",
          suspends=(1, None),
          raises={"StreamClosed": dict(ensures=["self._closed"])},
          # the message handed out is the head of the private buffer, i.e. the first one appended since registration
-         ensures=["loop.activity is me", "len(at_last_suspension(self._consumer_buffers[sentinel])) > 0",
-                  "result is at_last_suspension(self._consumer_buffers[sentinel])[0]"],
+         ensures=["loop.activity is me",
+                  "exists(anything, lambda k: mine(k) and exact_class(k, object) and at_last_suspension(k in self._consumer_buffers) and "
+                  "len(at_last_suspension(self._consumer_buffers[k])) > 0 and result is at_last_suspension(self._consumer_buffers[k])[0])"],
          on_signal=["loop.activity is me"], on_close=[],
          # the private buffer is unregistered on every exit (return, StreamClosed, cancellation, close)
          on_exit=[DEAD_NEW, "forall(anything, lambda k: implies(mine(k) and exact_class(k, object), not (k in self._consumer_buffers)))"],
          # registered with an empty buffer before the first suspension
-         at_suspension=["sentinel in self._consumer_buffers", "implies(suspensions() == 0, len(self._consumer_buffers[sentinel]) == 0)"],
+         at_suspension=["exists(anything, lambda k: mine(k) and exact_class(k, object) and k in self._consumer_buffers and "
+                        "implies(suspensions() == 0, len(self._consumer_buffers[k]) == 0))"],
          assume_on_wakeup=[WOKEN_HAS_MESSAGE],
          guarantee=[G_CHANNEL],
          props=["C11", "C20"])
@@ -193,12 +199,14 @@ contract("usim._basics.streams.Channel.__aiter__",
          params={"self": REF("Channel")}, inv_scope=CH_SCOPE,
          requires=["loop.activity is me"],
          suspends=(0, None),
-         step_ensures=["len(at_last_suspension(self._consumer_buffers[sentinel])) > 0",
-                       "result is at_last_suspension(self._consumer_buffers[sentinel])[0]",
-                       "self._consumer_buffers[sentinel] == at_last_suspension(self._consumer_buffers[sentinel])[1:]",
-                       "sentinel in self._consumer_buffers"],
+         step_ensures=["exists(anything, lambda k: mine(k) and exact_class(k, object) and k in self._consumer_buffers and "
+                       "len(at_last_suspension(self._consumer_buffers[k])) > 0 and "
+                       "result is at_last_suspension(self._consumer_buffers[k])[0] and "
+                       "self._consumer_buffers[k] == at_last_suspension(self._consumer_buffers[k])[1:])"],
          step_suspends=(0, None),
-         ensures=["self._closed", "len(buffer) == 0"],      # `buffer`: the consumer's private list (still alive as a local)
+         # (the private list is read after it was unregistered: the list object itself is still alive)
+         ensures=["self._closed",
+                  "forall(anything, lambda k: implies(mine(k) and exact_class(k, object), len(self._consumer_buffers[k]) == 0))"],
          loop_invariants={"while#1": ["loop.activity is me", "sentinel in self._consumer_buffers", "mine(sentinel)"],
                           "while#2": ["loop.activity is me", "sentinel in self._consumer_buffers", "mine(sentinel)"]},
          on_signal=[], on_close=[],
@@ -217,13 +225,13 @@ AWAIT_MESSAGE = dict(
              "self._read_mutex._owner is not me"],
     raises={"StreamClosed": dict(ensures=["self._closed", "len(self._buffer) == 0",
                                           "self._buffer == at_last_suspension(self._buffer)",
-                                          "self._read_mutex._owner is not me"])},
+                                          "self._read_mutex._owner is not me", "loop.activity is me"])},
     on_signal=["self._buffer == at_last_suspension(self._buffer)", "self._read_mutex._owner is not me"],
     on_exit=[DEAD_NEW])
 contract("usim._basics.streams.Queue.__await__",
          params={"self": REF("Queue")}, returns=ANY,
          inv_scope=["Notification", "Interrupt.parked_or_scheduled", "Lock", "Interrupt.live_lock_wakeup_is_owner", "Queue"],
-         props=["C10", "C20"], **AWAIT_MESSAGE)
+         props=["C10", "C20", "C16"], **AWAIT_MESSAGE)
 
 # async for item in queue: every step hands out exactly one head item (and yields to the others at least once);
 # the iteration ends only when the queue is closed and drained
@@ -235,10 +243,10 @@ contract("usim._basics.streams.Queue.__aiter__",
          step_ensures=["len(at_last_suspension(self._buffer)) > 0",
                        "result is at_last_suspension(self._buffer)[0]",
                        "self._buffer == at_last_suspension(self._buffer)[1:]",
-                       "self._read_mutex._owner is not me"],
+                       "self._read_mutex._owner is not me", "loop.activity is me"],
          step_suspends=(1, None),
-         ensures=["self._closed", "len(self._buffer) == 0"],
+         ensures=["self._closed", "len(self._buffer) == 0", "loop.activity is me", "self._read_mutex._owner is not me"],
          loop_invariants={"while#1": ["loop.activity is me", "self._read_mutex._owner is not me"]},
          on_signal=[], on_close=[],
          on_exit=[DEAD_NEW],
-         props=["C10", "C20"])
+         props=["C10", "C20", "C16"])
